@@ -1,0 +1,35 @@
+//go:build verif
+
+// Verification hooks (build tag "verif"): read-only accessors for unexported tracker state.
+
+package tracker
+
+import (
+	"fmt"
+	"strings"
+)
+
+// VerifSentCommit exposes the unexported sentCommit field.
+func (pr *Progress) VerifSentCommit() uint64 { return pr.sentCommit }
+
+// VerifDump renders the inflight window as the abstract FIFO it implements:
+// count.bytes.size.maxBytes.[index:bytes,...] oldest first ("-" for a nil tracker).
+func (in *Inflights) VerifDump() string {
+	if in == nil {
+		return "-"
+	}
+	var sb strings.Builder
+	fmt.Fprintf(&sb, "%d.%d.%d.%d.[", in.count, in.bytes, in.size, in.maxBytes)
+	idx := in.start
+	for i := 0; i < in.count; i++ {
+		if i > 0 {
+			sb.WriteByte(',')
+		}
+		fmt.Fprintf(&sb, "%d:%d", in.buffer[idx].index, in.buffer[idx].bytes)
+		if idx++; idx >= in.size {
+			idx -= in.size
+		}
+	}
+	sb.WriteString("]")
+	return sb.String()
+}
